@@ -7,6 +7,10 @@ C09 — executable model of the code that exists:
 * `rest/router/patrouter.go` : `Handle` (method / leading-slash validation, `path.Clean`, one tree per method),
                             `ServeHTTP` (Clean, own tree, else `methodsAllowed` ⇒ 405 + Allow, else 404).
 * `path.Clean` for rooted paths (drop "" and ".", ".." pops; never above the root).
+* `patRouter.notFound` / `notAllowed` (`SetNotFoundHandler`, `SetNotAllowedHandler`): `PatRouter`, `Response`.
+* `rest/server.go`, `rest/engine.go` on the path of the property: `NewServer` (options in order, after the
+  built-in `WithNotFoundHandler(nil)`), `WithNotFoundHandler` (engine wrapper), `WithNotAllowedHandler`,
+  `AddRoutes` + `WithPrefix` (`path.Join`), `engine.bindRoutes` (`router.Handle` in order, first error aborts).
 
 A Go route string `r` (what follows the leading '/') is modelled by its token list `r.splitOn "/"`
 (never empty; `""` ↦ `[""]`).  Go's `for i := range route { if route[i] == slash … }` finds the first slash,
